@@ -831,9 +831,16 @@ func freshDecodeTargetRule(P *Program, R *Report, rule string) {
 		}
 		var pre []string
 		found := false
-		allInstrs(fn, func(i ssa.Instruction) {
+		scan := func(i ssa.Instruction) {
 			al, ok := i.(*ssa.Alloc)
-			if !ok || !strings.Contains(typeStr(al.Type()), "compressed") {
+			if !ok {
+				return
+			}
+			isTP := false
+			if pt, isPtr := al.Type().(*types.Pointer); isPtr {
+				_, isTP = pt.Elem().(*types.TypeParam) // `var c C` in a generic helper instantiated with the compressed type
+			}
+			if !ok || !(strings.Contains(typeStr(al.Type()), "compressed") || isTP) {
 				return
 			}
 			found = true
@@ -867,7 +874,16 @@ func freshDecodeTargetRule(P *Program, R *Report, rule string) {
 					}
 				}
 			}
-		})
+		}
+		// (in the decoder itself or in the unexported helper - possibly generic - that does the decoding for it)
+		deepVisit(P, fn, 2, func(g *ssa.Function) { allInstrs(g, scan) })
+		if !found {
+			for _, ci := range callsIn(fn) {
+				if g := staticCallee(ci); g != nil && g.Blocks != nil && (inModuleFn(g) || (g.Origin() != nil && inModuleFn(g.Origin()))) {
+					allInstrs(g, scan) // (an instance of a generic helper has no package of its own)
+				}
+			}
+		}
 		n++
 		R.decide(rule, key+":fresh-target", "the message is decoded into a zero-valued intermediate value (nothing of the receiver is handed to the decoder for reuse)", found && len(pre) == 0, strings.Join(pre, "; "), P.Pos(fn.Pos()))
 	}
